@@ -173,8 +173,10 @@ def nontrivial(c, o):
 	return None
 
 
-LEVEL_TEXT = ('Coq theorems on the parser model: a stream that is the concatenation of serialisations of well-formed messages (spec serializer in Gallina: start line, fields, '
-	'Content-Length body or any chunk partition with extensions and announced trailers) is parsed into exactly those messages, each consuming exactly its own octets; tied to '
-	'/repo by model-vs-implementation evaluation in Coq of pipelines produced by an independent RFC 7230 serializer, under whole, per-octet and truncation fragmentations.')
-LEVEL_NOTE = 'Partial: see DESIGN.md C02 for which lemmas are closed; known finding D13 excluded (unframed request followed by more octets in the same call).'
+LEVEL_TEXT = ('Machine-checked Coq theorems on the parser model: for ANY list of syntactically valid messages (start line, header block, body framed by Content-Length or by any partition into '
+	'non-empty chunks with extensions, optionally with an announced trailer section) the concatenation of their octets is delivered as exactly those messages in order, each consuming exactly '
+	'its own octets, the machine idle afterwards (induction over the list); under EVERY fragmentation on the reference machine, on the machine as implemented for quiet runs, and without '
+	'any hypothesis about the run for the client machine (server: when the header hook accepts framed header sections only); isolation and truncation at every cut; the CONNECT-client '
+	'configuration. Tied to /repo by model-vs-implementation evaluation in Coq of pipelines produced by an independent RFC 7230 serializer, fed whole, per octet and cut at truncation points.')
+LEVEL_NOTE = 'Known findings (recorded, excluded by the hypotheses named in the theorems): D13 unframed request followed by more octets in the same call, D48 empty reason phrase, D50 304 with Content-Length, D57 payload on GET/HEAD/TRACE.'
 TECHNIQUE = 'Coq proof on the Gallina parser model + in-Coq correspondence on independently serialised pipelines + ground-truth oracle at every truncation point'
